@@ -108,6 +108,8 @@ func classifyMergeErr(msg string) string {
 		return "ENodeCollision"
 	case strings.HasPrefix(msg, "overlapping root types fields"):
 		return "ERootOverlap"
+	case strings.HasPrefix(msg, "overlapping fields with different type or arguments"):
+		return "ESignature"
 	case strings.HasPrefix(msg, "overlapping fields, not complete copy"):
 		return "EOverlapPartial"
 	case strings.HasPrefix(msg, "overlapping fields"):
